@@ -15,7 +15,7 @@ RULE = ("resolve-level plans generated without the planner (loaderlab: response 
         "fetches with DependsOnFetchIDs on an entity / batch fetch. An evaluation is one (plan, fault set) run through resolve.Resolver; it is distinct by "
         "construction and non-trivial when the faults changed the response data relative to the fault-free run.")
 
-KEYS = ["status-ignored-with-data"]   # nan-accepted, entity-count-ignored, nullable-requires-null-sent: repaired in loader.go
+KEYS = ["status-ignored-with-data", "taint-filters-independent-fetches", "taint-single-entity-fetch-ignored"]   # nan-accepted, entity-count-ignored, nullable-requires-null-sent: repaired in loader.go
 
 
 def classify(case, detail):
@@ -24,6 +24,12 @@ def classify(case, detail):
     clause = detail.split(" ", 1)[0]
     if clause in ("affected_null", "unaffected_equal") and "status-ignored-with-data" in causes:
         return "status-ignored-with-data"
+    # partial-data fault on a single EntityFetch: never tainted (its data path already selected _entities[0])
+    if clause in ("taint_isolated", "requests_subset") and "taint-single-entity-fetch-ignored" in causes:
+        return "taint-single-entity-fetch-ignored"
+    # exactly what the dependency-blind filter removes (evaluated by the driver: the data equals the reduced reference)
+    if clause == "taint_isolated" and "[taint-filters-independent-fetches]" in detail:
+        return "taint-filters-independent-fetches"
     return None
 
 
@@ -73,8 +79,14 @@ def run(chk, extra_corpus=None):
         "encoding/json.Valid as the JSON validity oracle)",
         "modelled by hand and tied by correspondence: loader.go (selectItems, prepare*Fetch, mergeResult, erroredFetchIDs), astjson Get/MergeValues on trees; "
         "the renderer is the shared C02 model. Abstracted: xxhash of a representation = its bytes; MergeValues compares numbers by raw token; "
-        "Parallel children run in list order (C08 owns the schedules); tracing, authorization, rate limiting, tainted objects (ValidateRequiredExternalFields), "
+        "Parallel children run in list order (C08 owns the schedules); tracing, authorization, rate limiting, "
         "MultiEntityFetch, pass-through error mode and single flight (each generated fetch has its own operation text) are outside the model",
+        "tainted objects (ValidateRequiredExternalFields; coq/C07/ModelTaint.v): getTaintedIndices / selectObjectAndIndex / filterOutTainted and the taint "
+        "bookkeeping of mergeResult, modelled by hand and tied by correspondence (mode taint); Loader.taintedObjs is keyed by pointer, the model by location "
+        "in the data tree (aliases of one astjson value share a bucket); FetchInfo.FetchReasons is the parameter coords; decoding of the subgraph's errors "
+        "array by encoding/json (appendSubgraphError) is not modelled: the generated error entries are decodable; the spec clause taint_isolated (coq/C07/SpecTaint.v) "
+        "takes the failed objects of the reference data from the lab (the entities whose representation the scripted subgraph saw at the failed positions, "
+        "located by walking the universe along the fetch path) and the dependant / later fetch sets from the driver",
         "C02.Model.resolve is the renderer; c07_valid_json cites C02.Properties.resolve_refines_complete",
         "theorem hypotheses (all evaluated per generated plan by the driver, see distribution): fplan_wf (post-processing paths by kind, root single "
         "fetches, flat non-null representation variables under an on-type condition, no type-conditioned path elements, dependencies earlier in the tree), "
@@ -102,14 +114,34 @@ def run(chk, extra_corpus=None):
     if b:
         _fold(chk, state, b, totals)
         samples += [c[:600] for c in b[0][:1]]
-    # the chain batch (below) runs beside the main batch
+    # the end-to-end half runs beside the loader-level batches (its own harness and files)
+    try:
+        import props.c07e as c07e
+    except ImportError:
+        c07e = None
+
+    def e2e_part():
+        try:
+            c07e.run_part(chk)
+        except Exception as ex:  # noqa: BLE001
+            chk.add_violation("tie:C07/e2e-part", "tools/props/c07e.py failed: %r" % (ex,), found_input=False)
+    e2e_th = threading.Thread(target=e2e_part) if c07e is not None else None
+    if e2e_th:
+        e2e_th.start()
+    # the chain and taint batches (below) run beside the main batch
     nc = 60 if chk.tier == "quick" else 150
+    nt_plans = 60 if chk.tier == "quick" else 400
+    taint_box = []
+    th2 = threading.Thread(target=lambda: taint_box.append(_batch(
+        chk, "%s gen -seed %d -n %d -tier %s -mode taint -out {out}" % (exe, chk.seed, nt_plans, chk.tier), model, "taint", timeout=3000)))
+    th2.start()
     chain_box = []
     th = threading.Thread(target=lambda: chain_box.append(_batch(
         chk, "%s gen -seed %d -n %d -tier %s -mode chain -out {out}" % (exe, chk.seed, nc, chk.tier), model, "chain", timeout=3000)))
     th.start()
     b = _batch(chk, "%s gen -seed %d -n %d -tier %s -out {out}" % (exe, chk.seed, n, chk.tier), model, "gen", timeout=3000)
     th.join()
+    th2.join()
     if b:
         _fold(chk, state, b, totals)
         samples += [c[:600] for c in b[0][:3]]
@@ -154,6 +186,40 @@ def run(chk, extra_corpus=None):
             chk.coverage["distribution"]["runs"] = totals["runs"]
             chk.coverage["distribution"]["runs_changing_data"] = totals["nt"]
 
+    # tainted objects (mode taint)
+    b = taint_box[0] if taint_box else None
+    if b:
+        _fold(chk, state, b, totals)
+        samples += [c[:600] for c in b[0][:1]]
+        st = {"plans": len(b[0]), "plans_with_option_on": 0, "plans_with_parallel": 0, "fetches_with_nullable_requires_reasons": {},
+              "partial_fault_runs": {}, "proper_runs_on_batch_with_duplicates_or_skipped_before_failed": 0, "runs_tainting_something": 0}
+        for c in b[0]:
+            m = re.search(r"\(taint \(vre ([tf])\) \(coords(.*)\)\)\)$", c)
+            if not m:
+                continue
+            on = m.group(1) == "t"
+            st["plans_with_option_on"] += 1 if on else 0
+            if "(par " in c[c.rindex("(tree"):c.rindex("(prov")]:
+                st["plans_with_parallel"] += 1
+            kinds = dict(re.findall(r"\(fetch (\d+) (single|entity|batch)", c))
+            for fid in re.findall(r'\((\d+) \("', m.group(2)):
+                k = kinds.get(fid, "?")
+                st["fetches_with_nullable_requires_reasons"][k] = st["fetches_with_nullable_requires_reasons"].get(k, 0) + 1
+            for v in re.findall(r"\(faults(?: \(\d+ [a-z_]+\))* \(\d+ partial/(\w+)/", c):
+                st["partial_fault_runs"][v] = st["partial_fault_runs"].get(v, 0) + 1
+            st["runs_tainting_something"] += len(re.findall(r"\(l 7 \d+\)", c)) if on else 0
+            # compacted before the failing entity: the number of objects failed exceeds the failed positions, or a failed object sits
+            # at a list index beyond its response position
+            for (idx, failed) in re.findall(r"\(faults \(\d+ partial/(?:ok|deep)/\w+/([\d+]+)\)\).*?\(failed((?: \([^()]*(?:\([^()]*\)[^()]*)*\))*)\)", c):
+                ks = [int(x) for x in idx.split("+")]
+                locs = re.findall(r"\(i (\d+)\)\)(?= |$)", failed)
+                if len(ks) == 1 and locs and (len(locs) > 1 or int(locs[-1]) > ks[0]):
+                    st["proper_runs_on_batch_with_duplicates_or_skipped_before_failed"] += 1
+        if isinstance(chk.coverage.get("distribution"), dict):
+            chk.coverage["distribution"]["taint_mode"] = st
+            chk.coverage["distribution"]["runs"] = totals["runs"]
+            chk.coverage["distribution"]["runs_changing_data"] = totals["nt"]
+
     def more(st):
         for k in range(1, 4):
             bb = _batch(chk, "%s gen -seed %d -n %d -tier %s -out {out}" % (exe, chk.seed * 1000 + k, n * 2, chk.tier), model, "more%d" % k, timeout=3000)
@@ -170,19 +236,19 @@ def run(chk, extra_corpus=None):
                 os.remove(os.path.join(chk.work, "gen%d.cases" % k))
 
     vlib.conclude_differential(chk, state, more)
-    chk.coverage["evaluations"] = totals["runs"]
-    chk.coverage["distinct_nontrivial"] = totals["nt"]
     chk.coverage["samples"] = samples
-    # end-to-end half (real planner + ExecutionEngine over the fedlab), owned by tools/props/c07e.py
-    try:
-        import props.c07e as c07e
-    except ImportError:
-        c07e = None
-    if c07e is not None:
-        try:
-            c07e.run_part(chk)
-        except Exception as ex:  # noqa: BLE001
-            chk.add_violation("tie:C07/e2e-part", "tools/props/c07e.py failed: %r" % (ex,), found_input=False)
+    # end-to-end half (real planner + ExecutionEngine over the fedlab), owned by tools/props/c07e.py: started above
+    e2e = {}
+    if e2e_th:
+        e2e_th.join()
+        e2e = chk.coverage.get("e2e_part", {}).get("totals", {})
+    chk.coverage["evaluations"] = totals["runs"] + e2e.get("runs", 0)
+    chk.coverage["distinct_nontrivial"] = totals["nt"] + e2e.get("runs_changing_data", 0)
+    d = chk.coverage.get("distribution")
+    if isinstance(d, dict) and e2e and "e2e_part" not in d:
+        d["e2e_part"] = {"checked_cases": e2e.get("status", {}).get("checked", 0), "runs": e2e.get("runs", 0),
+                         "runs_changing_data": e2e.get("runs_changing_data", 0), "requests_per_case": dict(e2e.get("requests_per_case", {})),
+                         "fault_kinds_hit": {k[4:]: v for k, v in e2e.get("stats", {}).items() if k.startswith("hit_")}}
 
 
 def replay(chk, path):
